@@ -177,7 +177,19 @@ fn read_event(fmt: &str, kinds: &[String], variant: usize) -> String {
     }
 }
 
+/// an ICCMA file declaring more than a million arguments asks for gigabytes: a resource limit of the test bench, not a behaviour the
+/// property talks about (the allocation failure aborts the process, it cannot be observed as a panic) -- such fuzz cases are not run
+fn declares_huge_framework(bytes: &[u8]) -> bool {
+    String::from_utf8_lossy(bytes).lines().any(|l| {
+        let w: Vec<&str> = l.split_whitespace().collect();
+        w.len() >= 3 && w[0] == "p" && w[1] == "af" && w[2].chars().all(|c| c.is_ascii_digit()) && (w[2].len() > 7 || w[2].parse::<u64>().map_or(true, |n| n > 1_000_000))
+    })
+}
+
 fn total_event(fmt: &str, bytes: &[u8], origin: &str) -> String {
+    if fmt == "iccma" && declares_huge_framework(bytes) {
+        return json!({"ev": "skip", "what": "fuzz case declaring more than 10^6 arguments not run", "fmt": fmt, "origin": origin, "len": bytes.len()}).to_string();
+    }
     let r = catch_unwind(AssertUnwindSafe(|| {
         let mut b = bytes;
         if fmt == "iccma" {
@@ -369,18 +381,22 @@ pub fn cmd_io(a: &Args) {
         let mut rng = StdRng::seed_from_u64(seed ^ 0xb16);
         for i in 0..nbig {
             let fmt = if i % 2 == 0 { "iccma" } else { "apx" };
-            let n = rng.gen_range(40..400) * if i % 5 == 4 { 10 } else { 1 };
+            // one file in six declares 65 535 .. 131 073 arguments, few of them in attacks (tables allocated by blocks, lazily grown sets)
+            let huge = i % 6 >= 4;
+            let n = if huge { [65535usize, 65536, 65537, 70000, 131073][(i / 6) % 5] } else { rng.gen_range(40..400) * if i % 5 == 4 { 10 } else { 1 } };
             let mut atts: Vec<(usize, usize)> = vec![];
             // hubs: arguments with many outgoing / incoming attacks
+            let top = if huge { n - 3 } else { n };
             for _ in 0..rng.gen_range(1..4) {
-                let h = rng.gen_range(1..=n);
+                let h = rng.gen_range(1..=top);
                 for _ in 0..rng.gen_range(30..120) {
-                    let x = rng.gen_range(1..=n);
+                    let x = rng.gen_range(1..=top);
                     if rng.gen_bool(0.7) { atts.push((h, x)) } else { atts.push((x, h)) }
                 }
             }
-            for _ in 0..rng.gen_range(n..3 * n) {
-                atts.push((rng.gen_range(1..=n), rng.gen_range(1..=n)));
+            for _ in 0..(if huge { rng.gen_range(0..40) } else { rng.gen_range(n..3 * n) }) {
+                // in the huge files the last declared arguments stay out of every attack
+                atts.push((rng.gen_range(1..=top), rng.gen_range(1..=top)));
             }
             let mut t = String::new();
             if fmt == "iccma" {
